@@ -13,7 +13,7 @@
 EXTENDS Integers, Sequences, FiniteSets
 
 ZZ(d) == IF d >= 0 THEN 2*d ELSE -2*d - 1
-UnZZ(v) == IF v % 2 = 0 THEN v \div 2 ELSE -((v + 1) \div 2)
+UnZZ(v) == IF v % 2 = 0 THEN v \div 2 ELSE -(v \div 2) - 1      \* written so that v = 2^31-1 does not overflow
 Cmd(id, n) == n*8 + id
 MoveToId == 1  LineToId == 2  CloseId == 7
 
@@ -82,7 +82,8 @@ DecPolys(d, ds, mp, p) == IF Done(d, ds)
         ELSE IF ShoelaceO(ring) > 0 THEN DecPolys(d, c.ds, Append(mp, p), <<ring>>)
         ELSE DecPolys(d, c.ds, mp, Append(p, ring))
 Decode(t, d) ==
-   IF t = 1 THEN LET c == CmdAt(d, [pos |-> 1, cur |-> <<0,0>>]) IN IF ~c.ok THEN Err ELSE
+   IF Len(d) < 2 THEN Err                       \* "geom is not long enough"
+   ELSE IF t = 1 THEN LET c == CmdAt(d, [pos |-> 1, cur |-> <<0,0>>]) IN IF ~c.ok \/ c.id # MoveToId THEN Err ELSE
              LET ps == PtsD(d, c.ds, c.n, <<>>) IN IF ~ps.ok THEN Err
              ELSE IF c.n = 1 THEN [ok |-> TRUE, g |-> [t |-> "Point", c |-> ps.pts[1]]]
              ELSE [ok |-> TRUE, g |-> [t |-> "MultiPoint", c |-> ps.pts]]
